@@ -14,6 +14,8 @@ KIND_PROP = {
     'rw_missing_eq': 'C04', 'probe_missing': 'C04', 'rw_unsound_eq': 'C05', 'unbound_var': 'C05', 'match_not_represented': 'C05', 'match_mutated': 'C05',
     'mm_unbound_var': 'C05', 'mm_equation_fails': 'C05', 'mm_mutated': 'C05',
     'false_but_changed': 'C15', 'false_but_new': 'C15',
+    'model_members_disagree': 'C03', 'model_redundant_slot_matters': 'C03', 'model_term_changed': 'C03', 'model_ill_scoped': 'C03', 'model_handle_ill_scoped': 'C03',
+    'model_no_wellfounded_node': 'C03', 'model_node_not_evaluated': 'C03', 'model_panic': 'C03',
     'extract_panic': 'C06', 'extract_not_member': 'C06', 'extract_cost_mismatch': 'C06', 'extract_not_cheapest': 'C06', 'extract_foreign_slot': 'C06',
 }
 
@@ -82,6 +84,27 @@ def handle_terms(tmpl, nsteps):
         if t not in out: out.append(t)
     for op in tmpl.ops[:nsteps]:
         if op[0] in ('add', 'probe'): rec(tuple_term(op[1])) if op[0] == 'add' else (out.append(tuple_term(op[1])) if tuple_term(op[1]) not in out else None)
+    return out
+
+def judge_model_record(tmpl, rec):
+    """C03: every dumped e-graph of the record is evaluated in the finite model (mirsmt/model_eval.py): all e-nodes of a class denote the
+    same function of the class slots, further slots of a node do not influence its value, and every inserted term still denotes what
+    its class denotes.  -> list of (kind, step, detail)"""
+    from . import model_eval as ME
+    out = []
+    pat = rec['pattern']
+    if rec.get('panic'): out.append(('model_panic', len(rec['steps']), rec['panic'] if isinstance(rec['panic'], str) else rec['panic'].get('msg')))
+    for k, st in enumerate(rec['steps']):
+        if 'dump' not in st: continue
+        tables, issues = ME.eval_graph(st['dump'])
+        for kind, d in issues: out.append((kind, k, d))
+        hts = [O.apply_pattern(t, pat) for t in handle_terms(tmpl, k)]
+        if len(hts) != len(st['canon']): continue
+        for i, ht in enumerate(hts):
+            c = st['canon'][i]
+            if c is None: continue
+            r = ME.check_handle(tables, st['dump'], ht, lambda b: str(_first_name_of_block(pat, b)), c)
+            if r: out.append((r[0], k, dict(r[1], handle=i, term=ht)))
     return out
 
 def judge_record(tmpl, rec):
